@@ -9,7 +9,7 @@ for kind in range(5):
     n = CLSN.get(kind, 4)
     stubs = dict(ADT); stubs.update({'L_TRY_READ_LOCK': L + r'try_read_lock\(\)', 'L_CHECK': L + r'check\(unodb::optimistic_lock::version_type\) const'})
     job('olc.get.k%d' % kind, ['C14', 'C01', 'C16'], 'u_olc', 'proofs/olc/get.c', defines=['KIND=%d' % kind, 'POL=OLC64'],
-        roots={'TRY_GET': O64 + r'try_get\(', 'NODE_FIND': ((r'^unodb::detail::olc_inode_16<unsigned long, %s >::' % SPAN) if n == 16 else onode_rx(n)) + r'find_child\(std::byte\)'}, stubs=stubs, cut=['TRY_GET/while_2econd'], cfgs=(BASE, DEBUG),
+        roots={'TRY_GET': O64 + r'try_get\(', 'NODE_FIND': ((r'^unodb::detail::olc_inode_16<unsigned long, %s >::' % SPAN) if n == 16 else onode_rx(n)) + r'find_child\(std::byte\)'}, stubs=stubs, cut=['TRY_GET/while_2econd'], cfgs=(BASE, DEBUG), thorough_cfgs=ALL_CFGS,
         unwind=(258 if kind >= 3 else 40), floor=30, timeout=900, memsafe=False,
         under_contract=['olc_db<uint64_t>::try_get (descent step at node kind %d, lock coupling)' % kind],
         trusted=['sequential contracts of the optimistic_lock primitives (their concurrent semantics: C07)', 'one thread only: no claim about interleavings'])
@@ -26,13 +26,13 @@ for kind in (1, 2, 3, 4):
     n = CLSN[kind]; stubs = dict(ADT); stubs.update(LW)
     if kind >= 3: stubs['P_INIT'] = copy_rx(CLSN[kind - 1], n, r'unsigned char\)')
     job('olc.rocs.k%d' % kind, ['C14', 'C16', 'C10', 'C08'], 'u_olc', 'proofs/olc/rocs.c', defines=['KIND=%d' % kind, 'POL=OLC64'],
-        roots={'ROCS': r'unodb::detail::olc_impl_helpers::remove_or_choose_subtree<[^(]*olc_inode_%d<' % n}, stubs=stubs, cfgs=(BASE, DEBUG),
+        roots={'ROCS': r'unodb::detail::olc_impl_helpers::remove_or_choose_subtree<[^(]*olc_inode_%d<' % n}, stubs=stubs, cfgs=(BASE, DEBUG), thorough_cfgs=ALL_CFGS,
         unwind=UNW[kind], unwindset_raw=SPEC_LOOPS, floor=30, timeout=1800, mem_gb=(12 if kind <= 2 else 20), memsafe=False, objbits=14,
         under_contract=['olc_impl_helpers::remove_or_choose_subtree<olc_inode_%d> (lock-coupled removal step incl. write guards, obsolete, QSBR retire)' % n],
         trusted=['sequential contracts of the optimistic_lock primitives (their concurrent semantics: C07)', 'one thread only: no claim about interleavings',
                  'qsbr_per_thread::on_next_epoch_deallocate is a ledger event'] + (['basic_inode_%d::init(db, inode_%d&, child_to_delete) (shrink copy routine): no lock operation (IR fact olc.copy-routines.no-locks); memory / statistics / retire effects not modelled, shrink postconditions C10/C04-seq not claimed for this class' % (CLSN[kind - 1], n)] if kind >= 3 else []))
 QS = {'RETIRE': LW['RETIRE'], 'THIS_THREAD': LW['THIS_THREAD']}
-job('olc.copy-routines.no-locks', ['C14'], 'u_olc', 'proofs/olc/rocs.c', cfgs=(BASE, DEBUG), floor=2,
+job('olc.copy-routines.no-locks', ['C14'], 'u_olc', 'proofs/olc/rocs.c', cfgs=(BASE, DEBUG), thorough_cfgs=ALL_CFGS, floor=2,
     irfacts=[('closure-free-of', copy_rx(48, 16, r'std::unique_ptr<'), r'^unodb::optimistic_lock::(try_|write_|check\(|inc_|dec_|write_guard::|read_critical_section::)', QS),
              ('closure-free-of', copy_rx(256, 48, r'std::unique_ptr<'), r'^unodb::optimistic_lock::(try_|write_|check\(|inc_|dec_|write_guard::|read_critical_section::)', QS),
              ('closure-free-of', copy_rx(16, 48, r'unsigned char\)'), r'^unodb::optimistic_lock::(try_|write_|check\(|inc_|dec_|write_guard::|read_critical_section::)', QS), ('closure-free-of', copy_rx(48, 256, r'unsigned char\)'), r'^unodb::optimistic_lock::(try_|write_|check\(|inc_|dec_|write_guard::|read_critical_section::)', QS)],
@@ -42,7 +42,7 @@ job('olc.copy-routines.no-locks', ['C14'], 'u_olc', 'proofs/olc/rocs.c', cfgs=(B
 for kind in (0, 1):
     stubs = dict(ADT); stubs.update(LW); stubs['ROCS*'] = r'unodb::detail::olc_impl_helpers::remove_or_choose_subtree<[^(]*olc_inode_\d+<'
     job('olc.remove.top%d' % kind, ['C14', 'C16'], 'u_olc', 'proofs/olc/remove_top.c', defines=['KIND=%d' % kind, 'POL=OLC64'],
-        roots={'TRY_REMOVE': O64 + r'try_remove\('}, stubs=stubs, cut=['TRY_REMOVE/while_2econd'], cfgs=(BASE, DEBUG),
+        roots={'TRY_REMOVE': O64 + r'try_remove\('}, stubs=stubs, cut=['TRY_REMOVE/while_2econd'], cfgs=(BASE, DEBUG), thorough_cfgs=ALL_CFGS,
         unwind=10, floor=20, timeout=900, memsafe=False, objbits=14,
         under_contract=['olc_db<uint64_t>::try_remove (%s)' % ('entry: empty / leaf root / inner root up to the loop head' if kind == 0 else 'one descent-loop iteration, callee remove_or_choose_subtree by contract')],
         trusted=['sequential contracts of the optimistic_lock primitives (their concurrent semantics: C07)', 'one thread only: no claim about interleavings'])
@@ -51,7 +51,7 @@ for kind, fp in ((1, 0), (2, 0), (3, 0), (4, 0), (1, 1), (2, 1)):
     n = CLSN[kind]; stubs = dict(ADT); stubs.update(LW)
     if kind in (3,): stubs['P_GROW'] = copy_rx(CLSN[kind + 1], n, r'std::unique_ptr<')
     job('olc.aocs.k%d%s' % (kind, 'f' if fp else ''), (['C01', 'C10', 'C16'] if fp else ['C14', 'C16', 'C10', 'C08']), 'u_olc', 'proofs/olc/aocs.c', defines=['KIND=%d' % kind, 'POL=OLC64'] + (['FUNCPOST=1'] if fp else []),
-        roots=dict({'AOCS': r'unodb::detail::olc_impl_helpers::add_or_choose_subtree<[^(]*olc_inode_%d<' % n}, **({'N48_ADD': onode_rx(48) + r'add_to_nonfull\('} if kind == 3 else {})), stubs=stubs, cfgs=(BASE, DEBUG),
+        roots=dict({'AOCS': r'unodb::detail::olc_impl_helpers::add_or_choose_subtree<[^(]*olc_inode_%d<' % n}, **({'N48_ADD': onode_rx(48) + r'add_to_nonfull\('} if kind == 3 else {})), stubs=stubs, cfgs=(BASE, DEBUG), thorough_cfgs=ALL_CFGS,
         unwind={1: 19, 2: 50, 3: 258, 4: 258}[kind], unwindset_raw=SPEC_LOOPS, unwindset=({'N48_ADD': 8} if kind == 3 else None), floor=30, timeout=1800, mem_gb=(12 if kind == 1 else 20), memsafe=False, objbits=14,
         under_contract=['olc_impl_helpers::add_or_choose_subtree<olc_inode_%d> (lock-coupled insertion step incl. write guards, growth, allocation failure)' % n],
         trusted=['sequential contracts of the optimistic_lock primitives (their concurrent semantics: C07)', 'one thread only: no claim about interleavings',
@@ -60,7 +60,7 @@ for kind, fp in ((1, 0), (2, 0), (3, 0), (4, 0), (1, 1), (2, 1)):
 for kind, fp in ((0, 0), (1, 0), (2, 0), (1, 1), (2, 1)):
     stubs = dict(ADT); stubs.update(LW); stubs['AOCS*'] = r'unodb::detail::olc_impl_helpers::add_or_choose_subtree<[^(]*olc_inode_\d+<'
     job('olc.insert.top%d%s' % (kind, 'f' if fp else ''), (['C01', 'C10', 'C16'] if fp else ['C14', 'C16', 'C08']), 'u_olc', 'proofs/olc/insert_top.c', defines=['KIND=%d' % kind, 'POL=OLC64'] + (['FUNCPOST=1'] if fp else []),
-        roots={'TRY_INSERT': O64 + r'try_insert\('}, stubs=stubs, cut=['TRY_INSERT/while_2econd'], cfgs=(BASE, DEBUG),
+        roots={'TRY_INSERT': O64 + r'try_insert\('}, stubs=stubs, cut=['TRY_INSERT/while_2econd'], cfgs=(BASE, DEBUG), thorough_cfgs=ALL_CFGS,
         unwind=10, floor=20, timeout=900, memsafe=False, objbits=14,
         under_contract=['olc_db<uint64_t>::try_insert (%s)' % ('entry: empty tree, non-empty up to the loop head' if kind == 0 else 'one loop iteration at a leaf (exists / leaf split)' if kind == 1 else 'one loop iteration at an inner node (prefix split / callee add_or_choose_subtree by contract)')],
         trusted=['sequential contracts of the optimistic_lock primitives (their concurrent semantics: C07)', 'one thread only: no claim about interleavings'])
@@ -68,7 +68,7 @@ for kind, fp in ((0, 0), (1, 0), (2, 0), (1, 1), (2, 1)):
 # whose per-step lock coupling is otherwise only proved for try_get)
 NOWR = r'^unodb::optimistic_lock::(try_upgrade_to_write_lock|try_lock|write_unlock|write_unlock_and_obsolete|write_guard::)'
 CUTQ = {'THIS_THREAD?': LW['THIS_THREAD'], 'REG?': r'^unodb::detail::qsbr_ptr_base::register_active_ptr\(', 'UNREG?': r'^unodb::detail::qsbr_ptr_base::unregister_active_ptr\('}
-job('olc.readers.no-write-locks', ['C14'], 'u_olc', 'proofs/olc/get.c', cfgs=(BASE, DEBUG), floor=5,
+job('olc.readers.no-write-locks', ['C14'], 'u_olc', 'proofs/olc/get.c', cfgs=(BASE, DEBUG), thorough_cfgs=ALL_CFGS, floor=5,
     irfacts=[('closure-free-of', O64 + r'get_internal\(', NOWR, CUTQ)] +
             [('closure-free-of', O64 + r'iterator::%s\(' % f, NOWR, CUTQ) for f in ('first', 'last', 'next', 'prior', 'seek')] +
             [('closure-free-of', r'^void unodb::olc_db<unsigned long, %s >::%s<' % (SPAN, f), NOWR, CUTQ) for f in ('scan', 'scan_from', 'scan_range')],
@@ -90,7 +90,7 @@ for f, (alias, rx, nk) in ITFUNCS.items():
         for g, (a2, rx2, _) in ITFUNCS.items():
             if g != f and g in ('lmt', 'rmt', 'next', 'prior'): stubs[a2 + '?'] = IT + rx2
         job('olc.iter.%s.k%d' % (f, kind), ['C14', 'C16'], 'u_olc', 'proofs/olc/iter.c', defines=['KIND=%d' % kind, 'POL=OLC64', 'FUNC_%s=1' % f.upper()],
-            roots={alias: IT + rx}, stubs=stubs, cut=([] if f in ('first', 'last') else ['%s/%s' % (alias, 'while_2econd' if f in ('seek', 'next', 'prior') else 'while_2ebody')]), cfgs=(BASE, DEBUG),
+            roots={alias: IT + rx}, stubs=stubs, cut=([] if f in ('first', 'last') else ['%s/%s' % (alias, 'while_2econd' if f in ('seek', 'next', 'prior') else 'while_2ebody')]), cfgs=(BASE, DEBUG), thorough_cfgs=ALL_CFGS,
             unwind=10, floor=5, timeout=900, memsafe=False, objbits=14, replay=('replay/olc_seek_rcs_debug_scenario.cpp' if f == 'seek' else None),
             under_contract=['olc_db<uint64_t>::iterator::%s (read-section coupling; %s)' % (rx.split('\\')[0], 'straight-line' if nk == 1 else 'entry' if kind == 0 else 'loop iteration, case %d' % kind)],
             trusted=['sequential contracts of the optimistic_lock primitives (their concurrent semantics: C07)', 'one thread only', 'iterator stack / key buffer operations and the per-class node readers by contract: arbitrary results, no lock operation'])
